@@ -77,6 +77,26 @@ CLAIMED.update({
               "Coq proof (scan invariant for the first minimiser, exchange argument for monotonicity, list induction) + in-Coq differential correspondence", "5/C14"),
 })
 
+CLAIMED.update({
+    "C12": _c("Proof: Props/C12.v shows that every successful addTier/removeTier/renameTier/replaceTier leaves the tier list the plain "
+              "ordered-list model prescribes (Python list.insert index semantics included), that names stay unique and the invariant "
+              "holds along every history, that duplicates are rejected, that the span only widens, and that Textgrid.crop acts "
+              "tier-wise with all tiers sharing the textgrid's span for strict/truncated.  Mutator histories (exhaustive to depth 2/3 "
+              "over a small universe plus random ones) are replayed on real Textgrid objects and compared after every call with the "
+              "model and the list model inside Coq; the tier-wise clauses for eraseRegion/insertSpace/editTimestamps and validate() "
+              "are compared in the harness against the tier-level operations.",
+              "Coq proof (refinement to a list model, invariant by induction over histories) + in-Coq differential correspondence on histories", "5/C12",
+              "partial: tier-wise equality for eraseRegion/insertSpace/editTimestamps and mergeTiers are evaluated, not proved."),
+    "C13": _c("Proof (partial): Props/C13.v shows that the Textgrid mutators are all-or-nothing on every state satisfying the "
+              "invariant, including replaceTier's rollback, for a model that follows the source's order of checks and writes; "
+              "implementation state after failing calls is compared inside Coq.  The clauses 'copy-returning operations leave "
+              "receiver and arguments unchanged' and 'a failing save leaves the file untouched' concern Python object identity, "
+              "aliasing and the file system, which no functional model exhibits: they are decided by monitoring the real objects "
+              "(bit-exact snapshots before/after every call on success and exception paths) and real files.",
+              "Coq proof of atomicity on a step-machine model + runtime monitoring of the real objects (evaluation)", "5/C13",
+              "partial: the non-mutation and file clauses are monitored (evaluation), not proved; runtime aliasing is outside the model."),
+})
+
 PENDING = {}
 
 
